@@ -13,8 +13,8 @@ RULE = ("op sequences: first `clock T0` (T0 = 1.9e12 + offsets on/around bucket 
         "metric types x strategies {-1,1,0,2} with boundary triggers (integers the aggregates can reach, +-0.5, 0, +Inf, a slice of "
         "invalid and NaN triggers), injected load/cpu at/around the triggers, then 10-90 ops: inbound/outbound entries over 4 resources "
         "with batch counts {0,1,2,3,7}, exits in random order, time steps {0,1,50..400,499,500,501,999,1000,1001,>array, to next bucket "
-        "boundary}, rule reloads, stat reads; three profiles (mixed, burst = many entries per bucket, bbr = load above trigger with "
-        "completions in the window so that the capacity estimate is the deciding term). Non-trivial = the case contains at least one "
+        "boundary}, rule reloads, stat reads; four profiles (mixed, burst = many entries per bucket, bbr = load above trigger with "
+        "completions in the window so that the capacity estimate is the deciding term, rt = response times of a few ms against avgRT triggers between whole ms). Non-trivial = the case contains at least one "
         "system block and one inbound pass decided while >=1 rule was loaded; distinct by (multiset of loaded (metric,strategy), "
         "sequence of decisions).")
 
@@ -39,7 +39,9 @@ def trigger_for(rng, metric):
     if metric == 2:    # concurrency
         base = rng.choice([0, 1, 2, 3, 4, 6])
         return base + rng.choice([0, 0, 0, 0.5, -0.5]) if base else 0
-    if metric == 1:    # avg rt (whole ms)
+    if metric == 1:    # avg rt (whole ms: the code floors rtSum/complete before comparing)
+        if rng.random() < 0.5:
+            return rng.choice([1, 2, 3, 5, 10, 20, 50, 100]) + rng.choice([0, 0.5, 0.5, 0.25, 1.0 / 3, 0.75])
         return rng.choice([0, 1, 50, 100, 100.5, 150, 200, 250, 400, 499, 500, 1000, 2000])
     if metric == 0:    # load
         return rng.choice([0, 0.5, 1, 2, 2.5, 8])
@@ -96,7 +98,7 @@ def fbv(x):
 
 
 def gen_case(rng, cid):
-    profile = rng.choice(["mixed", "mixed", "burst", "bbr", "bbr"])
+    profile = rng.choice(["mixed", "mixed", "burst", "bbr", "bbr", "rt"])
     GEN_STATS["profile:" + profile] += 1
     off = rng.choice([0, 1, 123, 499, 500, 501, 999, 1000, 9500, 9999, 10000, rng.randint(0, 20000), rng.randint(0, 10 ** 7)])
     now = T_BASE + off
@@ -110,6 +112,12 @@ def gen_case(rng, cid):
         rules = "load " + " ".join([f"{m}/1/{fb(t)}"] + extra)
         GEN_STATS[f"rule:m{m}:s1"] += 1
         ops.append(f"sys {'load' if m == 0 else 'cpu'} {fb(t + rng.choice([0.25, 1, 5]))}")
+    elif profile == "rt":
+        # an avgRT rule whose trigger lies between whole milliseconds (the floor of the average matters)
+        t = rng.choice([1, 2, 3, 5, 10, 20, 50]) + rng.choice([0.5, 0.5, 0.25, 0.75, 0])
+        extra = [] if rng.random() < 0.7 else [gen_rule(rng)]
+        rules = "load " + " ".join([f"1/-1/{fb(t)}"] + extra)
+        GEN_STATS["rule:m1:s-1"] += 1
     else:
         for kind in ("load", "cpu"):
             if rng.random() < 0.6:
@@ -117,7 +125,7 @@ def gen_case(rng, cid):
     ops.append(rules)
     live, nid = [], 0
     nops = rng.randint(10, 90)
-    p_in = {"mixed": 0.7, "burst": 0.85, "bbr": 0.9}[profile]
+    p_in = {"mixed": 0.7, "burst": 0.85, "bbr": 0.9, "rt": 0.9}[profile]
     for _ in range(nops):
         r = rng.random()
         if r < (0.45 if profile != "burst" else 0.6):
@@ -135,6 +143,8 @@ def gen_case(rng, cid):
                 d = rng.choice([0, 1, 5, 50, 100, 250, 499, 500])
             elif profile == "bbr":
                 d = rng.choice([1, 20, 50, 100, 150, 200, 250, 400, 500, 600, 1000])
+            elif profile == "rt":       # response times of a few ms with odd sums: fractional averages
+                d = rng.choice([0, 1, 1, 2, 3, 5, 7, 10, 20, 50, 100])
             else:
                 d = rng.choice([0, 1, 50, 100, 250, 400, 499, 500, 501, 999, 1000, 1001, 1500, 2000, 9999, 10001, 30000])
             if rng.random() < 0.15:
